@@ -2,12 +2,28 @@
 """Which functions of /repo are re-translated on every run (harness/src_functions.py) and which are not.
 Prints per file: translated / total functions and source lines, then the untranslated functions."""
 import ast, os, sys
-sys.path.insert(0, "/verif/harness")
+sys.path.insert(0, os.path.join(os.path.dirname(os.path.abspath(__file__)), "..", "harness"))
 import src_functions
 REPO = os.environ.get("VERIF_REPO", "/repo")
-linked = {}
+linked, slices = {}, {}
 for c in src_functions.ALL:
     linked.setdefault(c["file"], set()).add((c.get("cls"), c["func"]))
+    # a configuration with body_slice translates only a run of statements: count those lines, not the function
+    slices.setdefault((c["file"], c.get("cls"), c["func"]), []).append(c.get("body_slice"))
+
+
+def linked_lines(rel, cls, n, body, lines):
+    sl = slices.get((rel, cls, n.name), [])
+    if not sl or any(x is None for x in sl):
+        return lines
+    heads = [ast.unparse(st).split("\n")[0] for st in n.body]
+    got = set()
+    for first, last in sl:
+        if heads.count(first) == 1 and heads.count(last) == 1:
+            for st in n.body[heads.index(first):heads.index(last) + 1]:
+                got.update(range(st.lineno, st.end_lineno + 1))
+    return min(lines, len(got))
+
 files = []
 for root, _d, fs in os.walk(os.path.join(REPO, "src", "batchie")):
     for f in fs:
@@ -34,7 +50,10 @@ for rel in sorted(files):
         lines = (body[-1].end_lineno - body[0].lineno + 1)
         nf += 1; nl += lines
         if (cls, n.name) in linked.get(rel, ()):
-            lf += 1; ll += lines
+            k = linked_lines(rel, cls, n, body, lines)
+            lf += 1; ll += k
+            if k < lines:
+                missing.append((rel, cls, n.name + "  [statements outside the translated run(s)]", lines - k))
         else:
             missing.append((rel, cls, n.name, lines))
     rows.append((rel, lf, nf, ll, nl))
